@@ -577,8 +577,29 @@ def account(case, ctx):
     ctx.sample(cls, case)
 
 
+def _outcome(case):
+    try:
+        run_history(case)
+        return None
+    except Fail as f:
+        return f
+
+
 def check(case, ctx):
     account(case, ctx)
+    if case[0] == "HIST2":
+        # the same history on freshly built objects, twice in one process: whatever the first evaluation leaves
+        # behind inside the library (a module-level memo, a mutable default argument, a class attribute) is seen by
+        # the second.  One signature for every way of failing, so that a failure whose details depend on how much
+        # state has accumulated still reproduces as the same failure on re-evaluation and in the replay.
+        o1 = _outcome(case)
+        o2 = _outcome(case)
+        if o1 is None and o2 is None:
+            return
+        f = o1 or o2
+        when = "both evaluations fail" if (o1 is not None and o2 is not None) else "the first evaluation passes, the repeat fails" if o1 is None else "the first evaluation fails, the repeat passes"
+        raise Fail("history evaluated twice in one process on fresh objects does not pass both times",
+                   {"when": when, "first": o1.sig if o1 else None, "repeat": o2.sig if o2 else None, "detail": f.detail}, f.facts)
     run_history(case)
 
 
@@ -595,10 +616,7 @@ def admit(case, fail):
     return None
 
 
-def machine(ctx):
-    import sys
-
-    prop = sys.modules[__name__]
+def _rules():
     ip = st.integers(0, NP - 1)
     iv = st.integers(0, NV - 1)
     io = st.integers(0, 30)
@@ -623,7 +641,34 @@ def machine(ctx):
     }
     lp = st.tuples(*[st.sampled_from(VALS)] * 3)
     init = st.tuples(st.just("POOL"), st.tuples(*[lp] * NP), st.tuples(*[st.tuples(*[st.sampled_from(VALS[4:13])] * 3)] * NV))
+    return rules, init
+
+
+def machine(ctx):
+    import sys
+
+    prop = sys.modules[__name__]
+    rules, init = _rules()
     return make_history_machine(ctx, prop, rules, init, step_count=16)
+
+
+@st.composite
+def repeated_history(draw):
+    """a short history, evaluated twice in one process by check(): ("HIST2", init, steps).  Weighted towards the
+    steps that make the library compute (queries, collinear bursts) after a few constructions."""
+    rules, init = _rules()
+    i0 = draw(init)
+    names_build = [n for n in rules if n.startswith("mk")]
+    names_q = ["collinear", "query", "query", "collinear", "copy"]
+    steps = []
+    for _ in range(draw(st.integers(1, 3))):
+        n = draw(st.sampled_from(names_build))
+        steps.append((n,) + tuple(draw(x) for x in rules[n]))
+    for _ in range(draw(st.integers(2, 5))):
+        n = draw(st.sampled_from(names_q))
+        steps.append((n,) + tuple(draw(x) for x in rules[n]))
+    return ("HIST2", i0, tuple(steps))
+
 
 
 _orig_apply = Executor.apply
@@ -640,4 +685,7 @@ Executor.apply = _apply
 
 def strata(tier):
     q = tier == "quick"
-    return [Stratum("pool-history", "machine", machine, 900 if q else 20000)]
+    return [
+        Stratum("repeat-history", "hyp", repeated_history(), 320 if q else 8000),
+        Stratum("pool-history", "machine", machine, 900 if q else 20000),
+    ]
